@@ -743,6 +743,14 @@ pub fn post_findings(prop: &str, case: &AnyCase, r: &RunResult) -> Vec<Finding> 
 			.iter()
 			.filter(|f| f.prop == "C04" && f.sig.starts_with("try-waits"))
 			.map(|f| Finding { prop: "C13", sig: format!("waits-instead-of-failing|{}", f.sig), ..f.clone() })
+			// a release of a lock somebody else holds (refused by the verification
+			// lock, effective on a real one) changes that lock's hold state
+			.chain(
+				r.findings
+					.iter()
+					.filter(|f| f.prop == "C05" && f.sig == "illegal-release|Foreign")
+					.map(|f| Finding { prop: "C13", sig: "releases-hold-of-another-thread".into(), ..f.clone() }),
+			)
 			.collect(),
 		"C10" => r
 			.findings
